@@ -96,6 +96,35 @@ CLAIMED = {
         "modelled (exercised only); glibc as oracle; occurrence-level correction in refill() belongs to C01/C16's harness.",
    technique="Lean 4 proof (induction on the bisection, case analysis of the two-step fixed point) + differential correspondence check against all installed zones",
    design="§5 C07"),
+ "C04": dict(
+   text="Lean theorems (Echse.Props.C04) about the transcribed model of echsd's scheduling core (resched/unwind_till, one event-loop "
+        "iteration under the libev contract of Appendix B, task_cb, chld_cb, unsched), by induction over histories of load / tick "
+        "/ child-exit: never early, one execution per task and tick in which occurrences came due (late ones collapse), nothing "
+        "for the past, spawn times increasing, retirement after the last occurrence. echsd.c itself is compiled unmodified "
+        "against a virtual-time <ev.h> and run on random histories; its spawn log, replies and table are compared with the "
+        "model and with a Python reference of the specified behaviour.",
+   note="Trusted: Lean kernel; the libev stand-in harness/fakeev/ev.h (written from libev 4.33 periodics_reify); harness hx_echsd.c; "
+        "recurrence streams abstracted to their occurrence lists (C01/C05); real clock jitter and real libev are not exercised.",
+   technique="Lean 4 proof (invariants by induction over daemon histories) + differential correspondence check on echsd.c under a virtual-time event loop",
+   design="§5 C04"),
+ "C11": dict(
+   text="Lean theorems (Echse.Props.C11) about the transcribed model of _inject_task1/_eject_task1/cmd_ical: the table refines the "
+        "abstract map UID -> (owner, task), requests of one user never change, list or re-own another user's entries, and every "
+        "instruction gets exactly one reply that is 2.0 iff the map changed as requested - for all finite request histories "
+        "(root daemon and per-user daemon). Real echsd.c is driven with requests from four users over colliding UIDs and "
+        "compared with the model and the abstract-map reference.",
+   note="Trusted: as C04. NOT modelled: the 32-bit hash key of a UID and the open-addressing table (two UIDs with equal hash are one "
+        "task, low-bit collisions grow the table) - findings D28/D29 are outside the model; getpwuid is replaced.",
+   technique="Lean 4 proof (refinement to an abstract map, induction over request histories) + differential correspondence check",
+   design="§5 C11"),
+ "C12": dict(
+   text="Lean theorems (Echse.Props.C12) about the transcribed model of task_cb/run_task/chld_cb: in every reachable state the "
+        "number of running executions of a task equals its counter and never exceeds N; a due occurrence is a --no-run spawn "
+        "iff N are running; after an exit the next one runs; the decision for a task depends on that task's record only. "
+        "echsd.c is driven with overlapping runs, late exits and replacements and compared with model and reference.",
+   note="Trusted: as C04. The executor's side of --no-run (echsx reporting NOT RUN) belongs to C13.",
+   technique="Lean 4 proof (state invariant by induction over timer/child-exit interleavings) + differential correspondence check",
+   design="§5 C12"),
 }
 
 checks = []
